@@ -22,6 +22,8 @@ var verifC04Programs = [...]string{
 	`a=(1 2 3); a[($x)]=9; echo ${a[($x)]} ${a[(($y))]} ${a[$x]}`,
 	`[[ ab != "$s" ]]; echo $?; [[ ab == "$s" ]]; echo $?; [[ ab = "$s" ]]; echo $?; [[ ! ab == "$s" ]]; echo $?; [[ ! ab != "$s" ]]; echo $?; [[ ab =~ "$s" ]]; echo $?; [[ ! ab =~ "$s" ]]; echo $?`,
 	`[[ "$s" != ab ]]; echo $?; [[ "$s" < "b" ]]; echo $?; [[ a > "$s" ]]; echo $?; [[ "$x" -lt "$y" ]]; echo $?; [[ "$x" -ne "$y" ]]; echo $?; [[ -n "$s" && "$s" != "a*" ]]; echo $?; [[ -z "$s" || ab == "$s"* ]]; echo $?`,
+	`(! (false)); echo $?; x=$(! (true)); echo $? "$x"; ( (! ( (true)))); echo $?; (! (exit 3)); echo $?; ! ( (false)); echo $?; ( ! false ); echo $?; ( (exit 2)); echo $?`,
+	`( (echo a) | cat ); ( (echo b) 2>&1 ); ( (echo c); echo d ); ( (echo e) && false ); echo $?; y=$( (echo f) ); echo $y; ( (echo g) & wait ); ( ( (exit 4) ) || echo h )`,
 	`declare -A m=([x]=lit [1]=one); x=1; echo ${m[x]} ${m[$x]} $(( m[x] )) $(( ${m[x]} + 0 ))` + "\n" + `[[ "$s" =~ "$s" ]]; echo $?; [[ "$s" == $s* ]]; echo $?`,
 }
 
